@@ -438,7 +438,7 @@ V("quadric action with the matrix and the inverse exchanged", "C07", CURVE, APPL
 V("D4 regression: Circle.area with a factor 2", "C13", CURVE, "        return np.pi * self.radius**2", "        return 2 * np.pi * self.radius**2", "E12.measure", "Circle.area", quick=True)
 V("Sphere.volume with the exponent of the surface", "C13", CURVE, "        return self._alpha(n) * self.radius**n", "        return self._alpha(n) * self.radius ** (n - 1)", "E12.measure", "Sphere.volume")
 V("Sphere.area without the factor n", "C13", CURVE, "        return n * self._alpha(n) * self.radius ** (n - 1)", "        return self._alpha(n) * self.radius ** (n - 1)", "E12.measure", "Sphere.area")
-V("unit-ball constant with gamma(n/2) in place of gamma(n/2 + 1)", "C13", CURVE, "        return math.pi ** (n / 2) / math.gamma(n / 2 + 1)", "        return math.pi ** (n / 2) / math.gamma(n / 2)", "missed")
+V("unit-ball constant with gamma(n/2) in place of gamma(n/2 + 1)", "C13", CURVE, "        return math.pi ** (n / 2) / math.gamma(n / 2 + 1)", "        return math.pi ** (n / 2) / math.gamma(n / 2)", "E12.measure", "Sphere")
 V("unit-ball constant with pi**n", "C13", CURVE, "        return math.pi ** (n / 2) / math.gamma(n / 2 + 1)", "        return math.pi ** n / math.gamma(n / 2 + 1)", "E12.measure", "Sphere")
 V("twin: Circle.area with the factors reordered", "C13", CURVE, "        return np.pi * self.radius**2", "        r = self.radius\n        return r * r * np.pi", "silent")
 V("twin: Sphere.volume with the constant inlined", "C13", CURVE, "        return self._alpha(n) * self.radius**n", "        return self.radius**n * math.pi ** (n / 2) / math.gamma(n / 2 + 1)", "silent")
